@@ -373,20 +373,24 @@ def run(R):
     for q in DECODERS:
         escape_check(R, 'C07.ESC.1', q, DOCUMENTED, 'the decoder')
     # ------------------------------------------------------------------ GRD.1
-    R.ob('C07.GRD.1', 'parse_interest / parse_data refuse a packet without Name (the field default must not stand in for it)')
-    for q, model in (('ndn.encoding.ndn_format_0_3.parse_interest', 'InterestPacketValue'), ('ndn.encoding.ndn_format_0_3.parse_data', 'DataPacketValue')):
+    R.ob('C07.GRD.1', 'parse_interest / parse_data / parse_certificate refuse a packet without Name (the field default must not stand in for it)')
+    for q, model in (('ndn.encoding.ndn_format_0_3.parse_interest', 'InterestPacketValue'), ('ndn.encoding.ndn_format_0_3.parse_data', 'DataPacketValue'),
+                     ('ndn.app_support.security_v2.parse_certificate', 'DataPacketValue')):
         cx = ctx(R, q)
         inst = f'{q} :: Name mandatory'
         fld = M.field(('ndn.encoding.ndn_format_0_3', model), 'name')
         has_default = fld is not None and not fld.nullable
-        tests = [t for t in cx.cfg.nodes if t.kind == 'test' and ast.unparse(t.ast) in ("'name' not in ret.__dict__", "'name' in ret.__dict__", 'ret.name is None',
-                                                                                          'ret.name is not None', 'not ret.name', 'ret.name')]
+        # the decoded object: the local bound to <Model>.parse(..)
+        objs = [nm for n_ in cx.cfg.nodes for (nm, v) in cx.cfg.defs_of(n_) if isinstance(v, ast.Call) and callee_attr(v) == 'parse']
+        ov = objs[0] if objs else 'ret'
+        tests = [t for t in cx.cfg.nodes if t.kind == 'test' and ast.unparse(t.ast) in (f"'name' not in {ov}.__dict__", f"'name' in {ov}.__dict__", f'{ov}.name is None',
+                                                                                          f'{ov}.name is not None', f'not {ov}.name', f'{ov}.name')]
         ok = False
         for t in tests:
             txt = ast.unparse(t.ast)
-            bad = txt in ("'name' not in ret.__dict__", 'ret.name is None', 'not ret.name')
+            bad = txt in (f"'name' not in {ov}.__dict__", f'{ov}.name is None', f'not {ov}.name')
             lab = True if bad else False
-            if txt in ('ret.name is None', 'ret.name is not None', 'not ret.name', 'ret.name') and has_default:
+            if txt in (f'{ov}.name is None', f'{ov}.name is not None', f'not {ov}.name', f'{ov}.name') and has_default:
                 continue        # with a non-None default the value test cannot see absence
             if _raises(cx, t, lab):
                 ok = True
@@ -397,9 +401,10 @@ def run(R):
                    f'{ast.unparse(fld.default) if fld is not None and fld.default is not None else None!r} (a str, which the name tries cannot index)', site(cx, cx.f.node))
         chk = [c for (n, c) in calls_in_ctx(cx) if ast.unparse(c.func).endswith('parse_and_check_tl')]
         want = 0x05 if 'interest' in q else 0x06
+        always_tl = q.endswith('parse_certificate')      # (a certificate is always handed over with its outer TL)
         inst = f'{q} :: outer type checked'
         wt = [t for t in cx.cfg.nodes if t.kind == 'test' and ast.unparse(t.ast) == 'with_tl']
-        if len(chk) == 1 and P.const_value(cx.f.mod, chk[0].args[1]) == want and wt:
+        if len(chk) == 1 and P.const_value(cx.f.mod, chk[0].args[1]) == want and (wt or always_tl):
             R.ok('C07.GRD.1', inst, site(cx, chk[0]))
         else:
             R.fail('C07.GRD.1', inst, q, 'def ' + cx.f.node.name, f'outer type 0x{want:02x} / exact length is not checked', site(cx, cx.f.node))
